@@ -224,4 +224,25 @@ theorem C13_registry_use_harmless (reg : List Nat) (act : Nat → Callbacks.Edit
     registered before the task manager's (0) ends the walk - the task manager is never called -/
 example : Callbacks.deliver false [1, 0] (fun id => if id = 1 then .unregister 1 else .nothing) = ([1], [0], true) := by decide
 
+/-! ## a pilot that ends while tasks bound to it are being submitted -/
+
+/-- **no window between hand-over and registration**: with the code as it is (`Gen.submitRegistersFirst`:
+    `submit_tasks` enters a bulk into the registry before it hands it to the scheduler, at every site), wherever
+    the delivery of the pilot's final state falls between the steps of the submitting thread, a task of that pilot
+    the scheduler already had when the pilot ended is found by the callback and failed -/
+theorem C13_submission_window (i : Nat) :
+    (Callbacks.subRun (Callbacks.withFinalAt (Callbacks.submitOrder Gen.submitRegistersFirst) i)).handedBefore = true →
+    (Callbacks.subRun (Callbacks.withFinalAt (Callbacks.submitOrder Gen.submitRegistersFirst) i)).failed = true := by
+  have e : Gen.submitRegistersFirst = true := by decide
+  rw [e]
+  match i with
+  | 0 => decide
+  | 1 => decide
+  | (k + 2) => simp [Callbacks.withFinalAt, Callbacks.submitOrder, Callbacks.subRun, Callbacks.subStep]
+
+/-- the order matters: handing over first opens a window in which the pilot's end misses the task -/
+theorem C13_submission_window_witness :
+    (Callbacks.subRun (Callbacks.withFinalAt (Callbacks.submitOrder false) 1)).handedBefore = true
+    ∧ (Callbacks.subRun (Callbacks.withFinalAt (Callbacks.submitOrder false) 1)).failed = false := by decide
+
 end RPVerif.C13
